@@ -39,6 +39,10 @@ CHECKS["C12"] = ("E2", "deterministic simulation: seeded scheduler interleaving 
   "exploration",
   "(a) listener events form a legal path from the prelude state to the final state (each transition once, right previous state); (b) each Open->HalfOpen is >= retry timeout after the invocation of the earliest call that could have opened that period; (c) with no probe number no second request is admitted during a certainly-half-open period; (d) nothing is admitted during a certainly-open period. Sampled schedules (10^5 per quick run).",
   "Trusted: scheduler, that Open->HalfOpen is reported with no yield point after its CAS (checked by construction of the shim: the listener loop has no atomic access), interval reasoning of DESIGN.md §3 C12. One open finding (deadline checked before re-open) is tolerated and reported.", "DESIGN.md §3 C12")
+CHECKS["C10"] = ("E1+E2", "deterministic simulation: seeded request/tick histories in virtual nanoseconds with the requested Sleep captured at the clock seam (queues build up without time passing) against an exact reference queue; 35% of runs interleave 2-3 callers under the seeded scheduler, callers park for their requested wait in virtual time, ticks fire between the atomic accesses of the admission check",
+  "exploration",
+  "E1: decision and requested wait equal the reference queue exactly (1 ns band only where floating-point evaluation of the pacing interval differs from the exact value). E2: admitted requests ordered by pass time are each >= D(own batch) after their predecessor and no wait exceeds the limit. Sampling.",
+  "Trusted: reference queue (DESIGN.md A.3), clock seam capture of arrival (the CurrentTimeNano value the check received) and wait (the Sleep it requested), scheduler.", "DESIGN.md §3 C10")
 NOT_YET = {}
 props = [json.loads(l) for l in open(os.path.join(HERE, 'properties.jsonl'))]
 checks, na = [], []
